@@ -56,6 +56,22 @@ def rangeV (lo hi x : Int) : CM Unit :=
 /-- `dict(zip(names, values, strict=False))` -/
 def zipDict (names : List String) (values : List Str) : Data := names.zip values
 
+/-- `[str(data[field]) for field in names]`: `KeyError` at the first missing field. -/
+def mapFields (d : Data) : List String → CM (List Str)
+  | [] => .ok []
+  | k :: ks =>
+    match d.lookup k with
+    | none => .error (.foreign .KeyError)
+    | some t =>
+      match mapFields d ks with
+      | .ok ts => .ok (t :: ts)
+      | .error e => .error e
+
+/-- What marshmallow's `dump` hands to `to_string`: the six attributes by field name (numbers printed as `str` prints them). -/
+def dumpData (m : Msg) : Data :=
+  [("node_id", dec m.node), ("child_id", dec m.child), ("command", dec m.cmd), ("ack", dec m.ack),
+   ("message_type", dec m.type), ("payload", m.payload)]
+
 /-! ### marshmallow's `Schema.load` around the repository's validators (constant glue)
 
 `child` and `command` are the two custom fields (`ChildIdField`, `CommandField`), whose `_deserialize` calls the
